@@ -1,6 +1,6 @@
 (* C14/Property.v — property C14 (stored configuration images), theorems only.
    Each is closed by `exact <lemma>` and followed by Print Assumptions. *)
-From CF Require Import Common.Bytes C14.Model C14.Model_lh C14.Model_misc C14.Proofs_i2c C14.Proofs_ow C14.Proofs_lh C14.Proofs_misc.
+From CF Require Import Common.Bytes C14.Model C14.Model_lh C14.Model_misc C14.Proofs_i2c C14.Proofs_ow C14.Proofs_lh C14.Proofs_misc C14.Model_hist C14.Proofs_hist.
 Open Scope Z_scope.
 
 (* ------------------------------------------------------------------ EEPROM radio configuration *)
@@ -247,3 +247,61 @@ Theorem C14_layout_led_timings : forall ts,
   timings_read (S (length ts)) (timings_write ts) = map timing_record (filter timing_nonzero ts).
 Proof. exact timings_layout. Qed.
 Print Assumptions C14_layout_led_timings.
+
+(* ------------------------------------------------------------------ histories on one element object
+   Any sequence of update() / write_data() / disconnect() on ONE I2CElement resp. OWElement, with the device
+   image changing arbitrarily in between (ICorrupt, ISetMem).  update() resets valid, so: *)
+
+(* after any history, the verdict of the next update() is the verdict of THAT read alone: the checksum verdict a
+   fresh object would give for the current device image, or False when the update is not carried out at all
+   because an earlier read never completed (unknown version byte / failed read request) *)
+Theorem C14_i2c_valid_reflects_last_read : forall ops mem,
+  let st := fst (i2c_run ops) in
+  is_valid (fst (i2c_update st mem)) = negb (is_pending st) && i2c_valid (i2c_parse mem).
+Proof. exact i2c_valid_last_read. Qed.
+Print Assumptions C14_i2c_valid_reflects_last_read.
+
+(* no history reaches a state that is both valid and waiting for a read *)
+Theorem C14_i2c_pending_implies_not_valid : forall ops,
+  is_pending (fst (i2c_run ops)) = true -> is_valid (fst (i2c_run ops)) = false.
+Proof. exact i2c_run_inv. Qed.
+Print Assumptions C14_i2c_pending_implies_not_valid.
+
+(* finding F14c: the "or False" above happens.  An unknown version byte leaves the update pending for ever; a
+   correct image written afterwards through the same object is never read, valid stays False, no callback *)
+Theorem C14_i2c_update_ignored_after_unfinished_read :
+  let '(st, mem) := i2c_run f14c_ops in
+  i2c_valid (i2c_parse mem) = true /\ is_valid st = false /\ is_pending st = true /\ is_cbs st = 0.
+Proof. exact i2c_f14c. Qed.
+Print Assumptions C14_i2c_update_ignored_after_unfinished_read.
+
+(* finding F14e: 'radio_address' is only ever written by a version-1 read: after a version-1 image a valid
+   version-0 image read through the same object still shows the address of the earlier image *)
+Theorem C14_i2c_stale_radio_address :
+  let '(st, mem) := i2c_run f14e_ops in
+  i2c_parse mem = I2C_Res true true (Some (mk_i2c 0 80 2 0 0 None)) /\
+  is_valid st = true /\ is_elems st = Some (mk_i2c 0 80 2 0 0 (Some 996028180225)).
+Proof. exact i2c_f14e. Qed.
+Print Assumptions C14_i2c_stale_radio_address.
+
+Theorem C14_ow_valid_reflects_last_read : forall ops mem,
+  let st := fst (ow_run ops) in
+  os_valid (fst (fst (ow_update st mem))) = negb (os_pending st) && ow_is_valid (ow_parse mem).
+Proof. exact ow_valid_last_read. Qed.
+Print Assumptions C14_ow_valid_reflects_last_read.
+
+(* with an empty dictionary the elements after an accepted update are exactly the fresh parse's *)
+Theorem C14_ow_elements_of_last_read_when_dict_empty : forall st mem o,
+  os_pending st = false -> os_elems st = [] -> ow_parse mem = OW_Res o ->
+  os_elems (fst (fst (ow_update st mem))) = ow_elements o.
+Proof. exact ow_update_elems_fresh. Qed.
+Print Assumptions C14_ow_elements_of_last_read_when_dict_empty.
+
+(* finding F14d: the dictionary is never cleared by the library: an element of an earlier image survives a later
+   valid read of an image that does not contain it *)
+Theorem C14_ow_stale_elements :
+  let '(st, mem) := ow_run f14d_ops in
+  ow_parse mem = OW_Res (mk_ow true true 0 188 18 [(1, [90])] None) /\
+  os_valid st = true /\ os_elems st = [(1, [90]); (2, [67])].
+Proof. exact ow_f14d. Qed.
+Print Assumptions C14_ow_stale_elements.
